@@ -355,7 +355,14 @@ pub enum Via {
 pub enum Cmd {
     ProcessEvent { target: u16, kind: u8 },
     ProcessQuery { target: u16, kind: u8 },
-    ProcessSource { src: u16, kind: u8 },
+    /// `pmode`: the action processed is built with 0 = `event`, 1 = `periodic_event` (the
+    /// periodicity must be ignored by `process`), 2 = `keyed_event` (key dropped, not cancelled).
+    ProcessSource {
+        src: u16,
+        kind: u8,
+        #[serde(default)]
+        pmode: u8,
+    },
     Step,
     StepUntil { when: When },
     Sched { target: u16, kind: u8, when: When, mode: Mode, via: Via },
